@@ -27,3 +27,6 @@ func verifTrace(ev string, a, b, c uint64) {}
 
 // verifTraceSelfCopy records a chunk copied from the self seed. No-op unless built with 'verif'.
 func verifTraceSelfCopy(c IndexChunk, segment SeedSegment) {}
+
+// verifTracePlan records the validated plan of AssembleFile. No-op unless built with 'verif'.
+func verifTracePlan(attempt int, plan Plan, seeds []Seed) {}
